@@ -144,11 +144,16 @@ pub open spec fn kept(n: int, keep: spec_fn(int) -> bool) -> Seq<int>
 // descendants-or-self in document pre-order (RFC 9535 §2.5.2.2: a node is visited before its
 // descendants, array elements in index order, members in member order).  `fuel` only makes the
 // recursion well-founded: it is instantiated with height + 1.
+pub open spec fn desc_step<'a, T: Queryable>(fuel: nat) -> spec_fn(Node<'a, T>) -> Seq<Node<'a, T>>
+    decreases fuel, 1int
+{
+    |c: Node<'a, T>| desc_fuel(c, fuel)
+}
 pub open spec fn desc_fuel<'a, T: Queryable>(n: Node<'a, T>, fuel: nat) -> Seq<Node<'a, T>>
-    decreases fuel
+    decreases fuel, 0int
 {
     if fuel == 0 { Seq::empty() }
-    else { seq![n] + concat(children(n).map_values(|c: Node<'a, T>| desc_fuel(c, (fuel - 1) as nat))) }
+    else { seq![n] + concat(children(n).map_values(desc_step((fuel - 1) as nat))) }
 }
 pub open spec fn descendants<'a, T: Queryable>(n: Node<'a, T>) -> Seq<Node<'a, T>> {
     desc_fuel(n, (n.inner.height_spec() + 1) as nat)
